@@ -54,6 +54,7 @@ type World struct {
 	factMemo   map[*ssa.Function]*funcFacts
 	dead       map[edgeKey]bool
 	keyDepth   int
+	intConsts map[string]*ssa.Const
 	fwdBusy    bool
 	liveMemo   map[*ssa.Function]map[*ssa.BasicBlock]bool
 	li         *lockInfo
